@@ -78,6 +78,10 @@ func (p c10) Gen(seed uint64, tier string, idx int) (*Case, bool) {
 			}
 		}
 	}
+	if pi%4 == 3 && pi >= len(c10Programs) {
+		// a quarter of the generated programs are parsed with an alias table: faults strike while alias text is pending
+		c.Aliases = gen.AliasTable(gen.FromSeed(gosim.Mix(seed, 0xA11A5, uint64(pi))))
+	}
 	c.Reader = c10Variant(v, uint64(idx))
 	// the shape of the injected error rotates per program: plain, wrapping io.EOF, wrapping io.ErrUnexpectedEOF
 	if c.Reader.FaultKind != "zero-progress" {
